@@ -30,6 +30,8 @@ REQUIRED = ["KV.C20.read_eq", "KV.C20.write_read", "KV.C20.write_frame", "KV.C20
             "KV.C20.theta_real_ok", "KV.C20.power2_next_eq", "KV.C20.power2_ideal_eq", "KV.C20.power2_ctor_iff",
             "KV.C20.power2_ops_eq", "KV.C20.power2_double_eq", "KV.C20.auto_refines_map_power2",
             "KV.C20.inserted_found", "KV.C20.auto_inserted_found", "KV.C20.firstEmpty_diverges_iff",
+            "KV.C20.sized_table_holds", "KV.C20.probe_reads_in_range", "KV.C20.double_frame",
+            "KV.C20.run_with_double_refines_map",
             "KV.C20.roundBuckets", "KV.C20.double_without_rollover_loses"]
 
 
